@@ -726,7 +726,7 @@ where
             .get_int(CONSECUTIVE_FAILED_INSTALL_ATTEMPTS)
             .await
             .unwrap_or(0)
-            + 1;
+            .saturating_add(1);
 
         self.report_metrics(Metrics::AttemptsToSuccessfulInstall {
             count: attempts as u64,
